@@ -305,13 +305,57 @@ def analyse(ctx, repo, prop):
         obj = bm_frozen.kw.get("obj") if isinstance(bm_frozen, Term) else None
         stores = obj.stores[:bm_frozen.kw["stores"].v] if isinstance(obj, ObjV) else []
         ctx.instance("MIRROR", len(stores))
-        if len(stores) != 1:
+        vect = None
+        fdata = bm_frozen.kw.get("data") if isinstance(bm_frozen, Term) else None
+        if len(stores) == 0 and isinstance(fdata, Grid) and fdata.ndim == 1:
+            # vectorised scaling of the stored entries:  M.data *= factor[M.row // n_o]   (entry e lies in diagonal block row(e) // n_o;
+            # rows and columns of a stored entry of the block-diagonal matrix are in the same block)
+            def deep_atoms(v_, acc):
+                if isinstance(v_, Num):
+                    acc |= v_.p.all_atoms_deep()
+                elif isinstance(v_, Term):
+                    for a_ in list(v_.args) + list(v_.kw.values()):
+                        deep_atoms(a_, acc)
+                elif isinstance(v_, TupleV):
+                    for a_ in v_.items:
+                        deep_atoms(a_, acc)
+                return acc
+            ats = deep_atoms(fdata.elem, set())
+            fds = [a_ for a_ in ats if a_[0] == "app" and a_[1] == "floordiv"]
+            dat = [a_ for a_ in ats if a_[0] == "app" and a_[1] == "data"]
+            if len(dat) == 1 and len(fds) <= 1:
+                vect = (fds[0] if fds else None, dat[0])
+        if vect is not None:
+            fd, dat = vect
+            kk = interp.fresh_idx("k")
+            k = Poly.atom(kk)
+            mapping = {dat: Poly.const(1)}
+            if fd is not None:
+                mapping[fd] = k
+            val = subst(fdata.elem, mapping)
+            ctx.ok("LAYOUT", f"{tag}.scale.loop", "every stored entry of every shell is scaled (one vectorised update of the data vector)", where,
+                   "M.data *= factor[M.row // n_o]")
+            if fd is None:
+                okb = True
+            else:
+                num_, den_ = fd[2], fd[3]
+                roles = [a_ for a_ in (num_.atoms() if isinstance(num_, Poly) else []) if a_[0] == "app" and a_[1] in ("row", "col")]
+                okb = isinstance(den_, Poly) and den_ == n_o and len(roles) == 1 and isinstance(num_, Poly) and num_ == Poly.atom(roles[0])
+            ctx.check(okb, "MIRROR", f"{tag}.scale.mask", "an entry receives the factor of shell (row // n_o) = (col // n_o): its diagonal block", where,
+                      "M.row // n_o", witness=f"shell index of an entry: {Poly.atom(fd).pretty() if fd is not None else 'none'}")
+            class _LP:
+                pass
+            lp = _LP()
+            lp.idx = kk
+        elif len(stores) != 1:
             ctx.inconclusive("LAYOUT", f"{tag}.scale", "per-shell scaling of the lateral blocks not recognised", where,
                              witness=f"{len(stores)} masked updates")
+            lp = None
         else:
             frames, idx, val, aug, st = stores[0]
             loops = [f for f in frames if f.kind == "loop"]
             mask = idx.items[1] if isinstance(idx, TupleV) and len(idx.items) == 2 else None
+            lp = None
             if not (len(loops) >= 1 and isinstance(mask, Grid) and isinstance(mask.elem, CondV) and aug == "Mult"):
                 ctx.inconclusive("LAYOUT", f"{tag}.scale", "masked in-place scaling not recognised", where, witness=vstr(idx)[:300])
             else:
@@ -326,6 +370,8 @@ def analyse(ctx, repo, prop):
                 ctx.check(okb, "MIRROR", f"{tag}.scale.mask", "shell k's factor is applied to entries with rows AND columns in "
                           "[k*n_o, (k+1)*n_o) (the k-th diagonal block)", where, "mask = smallest_row & largest_row & smallest_column & largest_column",
                           witness=str({kk: {a: v.pretty() for a, v in vv.items()} for kk, vv in b.items() if kk != "?"}) + (" unrecognised term" if "?" in b else ""))
+        if lp is not None:
+            if True:
                 # factor
                 if prop == "adjacency":
                     ctx.check(isinstance(val, Num) and val.p == Poly.const(1), "KERNEL", f"{tag}.scale.value", "adjacency blocks are not rescaled", where,
